@@ -57,9 +57,9 @@ fn fnv(s: &str) -> String { let mut h: u64 = 0xcbf29ce484222325; for b in s.byte
 
 impl Prop for C09 {
   fn id(&self) -> &'static str { "C09" }
-  fn rule(&self) -> String { "inputs: (i) random strings of 1-60 tokens over the Mech token alphabet (operators, brackets, fence sigils, box-drawing and set/table operators, digits, identifiers, quotes, CR/LF/tab, combining sequences, ZWJ emoji, BOM, RTL mark); (ii) the 632 corpus programs and generated programs with 1-3 mutations (delete / duplicate / swap / insert bracket / truncate / splice); (iii) every .mec document in the repository: all line-boundary prefixes plus seeded inner cuts; (iv) valid generated programs with a unique marker identifier per statement; (v) random strings over a Mechdown vocabulary (fence openers for every info string, $$, links, images, footnotes, lists, checkboxes, quotes, callouts, tables, rules, Mika faces), fenced blocks of each of 30 info strings x both sigils with token bodies, and small documents with 1-3 mutations; (vi) structured degenerate forms: front matter keys x value forms (text, image, figure table, link, empty, fence, ...) and 36 well-formed and malformed patterns in every pattern position (match arm, function arm, comprehension generator, state pattern, guarded arm). Oracle per input: no panic escapes parser::parse, the result is a tree or a ParserErrorReport with >= 1 context whose ranges lie inside the input, TextFormatter::format_error returns, two parses give the same Debug rendering (also across processes through digests), an accepted generated program contains every marker, and a parse before and after an interpreter session agree. Hook monitors: LoopGuard (three identical consecutive cursors in a hand-written loop) and the step budget. Non-trivial = every input is".into() }
+  fn rule(&self) -> String { "inputs: (i) random strings of 1-60 tokens over the Mech token alphabet (operators, brackets, fence sigils, box-drawing and set/table operators, digits, identifiers, quotes, CR/LF/tab, combining sequences, ZWJ emoji, BOM, RTL mark); (ii) the 632 corpus programs and generated programs with 1-3 mutations (delete / duplicate / swap / insert bracket / truncate / splice); (iii) every .mec document in the repository: all line-boundary prefixes plus seeded inner cuts; (iv) valid generated programs with a unique marker identifier per statement; (v) random strings over a Mechdown vocabulary (fence openers for every info string, $$, links, images, footnotes, lists, checkboxes, quotes, callouts, tables, rules, Mika faces), fenced blocks of each of 30 info strings x both sigils with token bodies, and small documents with 1-3 mutations; (vii) Mika faces: every left arm x right arm in micro / mini / inner-arm forms and every nose; (vi) structured degenerate forms: front matter keys x value forms (text, image, figure table, link, empty, fence, ...) and 36 well-formed and malformed patterns in every pattern position (match arm, function arm, comprehension generator, state pattern, guarded arm). Oracle per input: no panic escapes parser::parse, the result is a tree or a ParserErrorReport with >= 1 context whose ranges lie inside the input, TextFormatter::format_error returns, two parses give the same Debug rendering (also across processes through digests), an accepted generated program contains every marker, and a parse before and after an interpreter session agree. Hook monitors: LoopGuard (three identical consecutive cursors in a hand-written loop) and the step budget. Non-trivial = every input is".into() }
   fn assumptions(&self) -> Vec<String> { vec![
-    "range bounds: 1 <= row <= lines+1, 1 <= col <= width(row)+2, start <= end (ParseError::new sets end.col = start.col + 1)".into(),
+    "range bounds: 1 <= row <= lines (+1 only if the text ends in a line break), 1 <= col <= width(row)+2, start <= end (ParseError::new sets end.col = start.col + 1)".into(),
     "an input that needs more than the logical step budget (2*10^7 attempted consumptions in quick, 2*10^8 in thorough) is inconclusive, never a verdict".into(),
   ] }
   fn floor(&self, tier: Tier) -> usize { if tier == Tier::Quick { 3000 } else { 30000 } }
@@ -132,6 +132,18 @@ impl Prop for C09 {
         out.push(Case { id: format!("pattern;p={};f={}", pi, fi), cell: "pattern-forms".into(), input: json!({"text": src}) });
       }
     }
+    // (vii) Mika faces: every left arm x every right arm (micro and mini forms, arms inside the parentheses), every nose
+    let larms = ["Ɔ∞", "›─", "›⌣", "·¬", "-◡", "ᗑ", "ᕦ", "~", "⌣", "╭", "⸌", "⸸", "─", "ᓂ", "ᓇ", "╰"];
+    let rarms = ["∞C", "─‹", "⌣‹", "⌐·", "◡-", "ᗑ", "ᕤ", "~", "⌣", "╮", "⸍", "ᗢ", "─", "ᓀ", "ᓄ", "╯"];
+    let noses = ["⦿", "◯", "⊕", "∘", "⦾", "⊖", "⦵", "⊗", "⏺", "⍜"];
+    for (li, l) in larms.iter().enumerate() { for (ri, r) in rarms.iter().enumerate() {
+      let nose = noses[(li + ri) % noses.len()];
+      for (fi, text) in [format!("{}{}{}", l, nose, r), format!("{}(˙{}˙){}", l, nose, r), format!("({}˙{}˙{})", r, nose, l), format!("{}{}{} ⸢hello⸥", l, nose, r), format!("para\n\n{}(˙{}˙){}\n", l, nose, r)].iter().enumerate() {
+        if fi >= 3 && (li + ri) % 4 != 0 { continue; }
+        out.push(Case { id: format!("mika;l={};r={};f={}", li, ri, fi), cell: "md-mika".into(), input: json!({"text": text}) });
+      }
+    } }
+    for (ni, n) in noses.iter().enumerate() { for (fi, text) in [format!("╭{}╮", n), format!("({}˙{}˙)", "", n), format!("(˙{}", n), format!("╭{}", n), format!("{}╮", n)].iter().enumerate() { out.push(Case { id: format!("mika-nose;n={};f={}", ni, fi), cell: "md-mika".into(), input: json!({"text": text}) }); } }
     // documents with 1-3 mutations
     for (path, text) in corpus::mec_files(4 * 1024) {
       for m in 0..(if tier == Tier::Quick { 2 } else { 16 }) { let mut rng = Rng::keyed(seed, &format!("c09docmut{}{}", path, m)); out.push(Case { id: format!("docmut;path={};m={}", path, m), cell: "document-mutated".into(), input: json!({"text": mutate(&text, &mut rng)}) }); }
@@ -213,7 +225,9 @@ impl Prop for C09 {
         if rep.1.is_empty() { return Outcome::violated("empty-error-report", format!("`{}`", shown())); }
         for ctx in rep.1.iter() {
           for r in std::iter::once(&ctx.cause_rng).chain(ctx.annotation_rngs.iter()) {
-            let ok_loc = |l: &mech_core::nodes::SourceLocation| l.row >= 1 && l.row <= widths.len() + 1 && l.col >= 1 && l.col <= widths.get(l.row - 1).cloned().unwrap_or(0) + 2;
+            // a position on the line after the last one exists only if the text ends in a line break
+            let max_row = widths.len() + if text.is_empty() || text.ends_with('\n') || text.ends_with('\r') { 1 } else { 0 };
+            let ok_loc = |l: &mech_core::nodes::SourceLocation| l.row >= 1 && l.row <= max_row && l.col >= 1 && l.col <= widths.get(l.row - 1).cloned().unwrap_or(0) + 2;
             let ordered = (r.start.row, r.start.col) <= (r.end.row, r.end.col);
             let uninit = r.start.row == 0 && r.start.col == 0 && r.end.row == 0 && r.end.col == 0;
             if !ok_loc(&r.start) || !ok_loc(&r.end) || !ordered { return Outcome::violated(if uninit { "range-uninitialised" } else { "range-outside-input" }, format!("`{}`: report range {}:{}..{}:{} but the text has {} line(s) of widths {:?}", shown(), r.start.row, r.start.col, r.end.row, r.end.col, widths.len(), widths.iter().take(12).collect::<Vec<_>>())); }
